@@ -290,13 +290,20 @@ def make_case(ctx, idx):
             for _ in range(3):
                 w = slice_at if mode == "slice" else lo + (hi - lo) * Fr(rng.randint(1, 7), 8)
                 pts = []
-                try:
-                    c05.near_points(first_factor(node), dict(env, **{partner: [w]}), rng, pts)
-                except Exception:
-                    pts = []
+                for ff in ([node.kids[0]] if node.kind == "prod" else [k_.kids[0] for k_ in node.kids]):
+                    try:
+                        c05.near_points(ff, dict(env, **{partner: [w]}), rng, pts)
+                    except Exception:
+                        pass
+                rng.shuffle(pts)
                 extra += [({"x": [f32(a) for a in p], partner: [f32(w)]}, j) for p in pts if len(p) == 2]
+                if mode == "slice":
+                    # the same points just off the fixed coordinate: a slice must reject them
+                    for p in pts[:4]:
+                        if len(p) == 2:
+                            extra.append(({"x": [f32(a) for a in p], partner: [f32(w) + rng.choice([Fr(1, 16), Fr(-1, 16), Fr(1, 64)])]}, j))
         rng.shuffle(extra)
-        rows += extra[: ctx.scale(16, 40)]
+        rows += extra[: ctx.scale(24, 48)]
     return dict(id=idx, mode=mode, dom=node.describe(), params=params, partner=partner,
                 sigma=frs(sigma), stage_b=stage_b, prow=[frs(p) for p in prow], k=k,
                 rows=[(frs(pt), j) for pt, j in rows], free=free,
@@ -438,6 +445,18 @@ def run_impl(case, nonempty=True):
     _, err = attempt(D._contains, pts, rest_rows)
     out["bare_after"] = err is None
     if mode == "slice":
+        # the slice written by hand: every product becomes  A(with the values substituted) x Point(fixed coordinate)
+        def by_hand(n):
+            if n.kind == "prod":
+                w = float(Fr(sigma[case["partner"]][0]))
+                return to_tp(subst(n.kids[0], unfrs(sigma)), tp) * tp.domains.Point(tp.spaces.R1(case["partner"]), w)
+            a_, b_ = by_hand(n.kids[0]), by_hand(n.kids[1])
+            return a_ + b_ if n.kind == "union" else a_ - b_ if n.kind == "cut" else a_ & b_
+        S, err = attempt(lambda: by_hand(node))
+        if S is not None:
+            out["nvS"] = sorted(S.necessary_variables)
+            got, err = attempt(S._contains, pts, rest_rows)
+            out["S"] = None if got is None else [bool(b) for b in got.reshape(-1).tolist()]
         return out
     # --- volume / bounding box / samples, with the distinct parameter rows;
     #     S = the same expression written by hand with the values substituted
@@ -852,6 +871,8 @@ def judge_slice(case, impl, replies, rep, call):
     partner = case["partner"]
     w = Fr(case["sigma"][partner][0])
     fvs = vset(replies[0].split()[3])
+    if impl.get("nvS") is not None and impl.get("nv1") is not None and impl["nvS"] != impl["nv1"]:
+        rep.fail(f"{call}.necessary_variables = {impl['nv1']} but the slice written by hand declares {impl['nvS']}", short(case))
     if impl.get("nv1") != fvs:
         rep.disagree("drivers/C17.lean slice: necessary_variables of the sliced product differ", short(case), impl.get("nv1"), fvs)
     if impl.get("nv1") is not None and set(impl["nv1"]) & set(case["sigma"]):
@@ -888,6 +909,10 @@ def judge_slice(case, impl, replies, rep, call):
             rep.count("slice-within-margin(skipped)")
             continue
         rep.count("slice-decided")
+        if impl.get("S") is not None and impl["S"][i] != impl["E"][i]:
+            rep.fail(f"{call} answers {impl['E'][i]} at a point on the fixed coordinate, the slice written by hand (every product = first factor "
+                     f"with the values substituted x Point({partner} = {float(w)})) answers {impl['S'][i]}", short(case, point=pt))
+            break
         if impl["E"][i] != (c1_ == "1"):
             rep.disagree("drivers/C17.lean slice: membership of the sliced product", short(case, point=pt), impl["E"][i], rl)
         if mg != "none" and Fr(mg) > MARGIN:
